@@ -1,9 +1,11 @@
-// C16 harness: builds real tbox::flow::StateMachine hierarchies from the definition lines of an
-// op file, runs the call sequence on the root and prints the global trace of every callback
-// (guards, handlers, exit/transition/enter actions, state-changed notifications, what scripted
-// callback bodies observed / which re-entrant calls they made) plus the return value and the
-// five observers of every machine after each call.  Same format as lean/Driver/C16.lean.
+// C16 harness: builds real tbox::flow::StateMachine objects from the definition lines of an op
+// file, wires them into a hierarchy (a machine may be attached to several states), runs the call
+// sequence and prints the global trace of every callback (guards, handlers, exit/transition/
+// enter actions, state-changed notifications, what scripted callback bodies observed and which
+// calls they made on ANY machine of the case) plus the return value and the five observers of
+// every machine after each call.  Same format as lean/Driver/C16.lean.
 #include "vh.h"
+#include <deque>
 #include <functional>
 #include <map>
 #include <memory>
@@ -12,8 +14,6 @@
 
 using tbox::flow::Event;
 using tbox::flow::StateMachine;
-
-static const size_t kMaxDepth = 3;
 
 // ---- strict parsers (must accept exactly what the Lean driver accepts) ----
 static bool p_int(const std::string &s, int &v) {
@@ -36,18 +36,50 @@ static std::vector<std::string> split(const std::string &s, char sep) {   // lik
     return r;
 }
 
-struct SOp { char kind; int ev; };   // 'o' obs, 's' start, 'x' stop, 'r' restart, 'e' run(ev)
-typedef std::vector<SOp> Script;
+struct Ev { int id; size_t tag; };            // tag 0 = extra is nullptr
+// "<id>" | "<id>:<tag>"
+static bool p_event(const std::string &s, Ev &e) {
+    auto ps = split(s, ':');
+    if (ps.size() == 1) { e.tag = 0; return p_int(ps[0], e.id); }
+    if (ps.size() == 2) return p_int(ps[0], e.id) && p_nat(ps[1], e.tag);
+    return false;
+}
+static std::deque<int> g_tags;               // storage the `extra` pointers point into
+static std::map<size_t, const int *> g_tagptr;
+static Event mk_event(const Ev &e) {
+    if (e.tag == 0) return Event(e.id);
+    auto it = g_tagptr.find(e.tag);
+    if (it == g_tagptr.end()) { g_tags.push_back((int)e.tag); it = g_tagptr.emplace(e.tag, &g_tags.back()).first; }
+    return Event(e.id, it->second);
+}
+static std::string ES(const Event &e) {
+    std::string s = std::to_string(e.id);
+    if (e.extra != nullptr) s += ":" + std::to_string(*static_cast<const int *>(e.extra));
+    return s;
+}
 
+struct SOp { char kind; Ev ev; long target; };   // 'o' obs, 's' start, 'x' stop, 'r' restart, 'e' run(ev); target -1 = own machine
+typedef std::vector<SOp> Script;
+static size_t g_max_target = 0; static bool g_has_target = false;
+
+static bool p_sop(const std::string &t0, SOp &op) {
+    auto at = split(t0, '@');
+    if (at.size() > 2) return false;
+    op.target = -1;
+    if (at.size() == 2) { size_t k; if (!p_nat(at[1], k)) return false; op.target = (long)k; }
+    const std::string &t = at[0];
+    if (t == "o" || t == "s" || t == "x" || t == "r") { op.kind = t[0]; op.ev = {0, 0}; return true; }
+    if (!t.empty() && t[0] == 'e') { op.kind = 'e'; return p_event(t.substr(1), op.ev); }
+    return false;
+}
 static bool p_script(const std::string &s, Script &out) {
     out.clear();
     if (s == ".") return true;
-    for (auto &t : split(s, ',')) {
-        if (t == "o" || t == "s" || t == "x" || t == "r") out.push_back({t[0], 0});
-        else if (!t.empty() && t[0] == 'e') { int e; if (!p_int(t.substr(1), e)) return false; out.push_back({'e', e}); }
-        else return false;
-    }
+    for (auto &t : split(s, ',')) { SOp op; if (!p_sop(t, op)) return false; out.push_back(op); }
     return true;
+}
+static size_t script_max(const Script &sc, bool &has) {
+    size_t m = 0; for (auto &op : sc) if (op.target >= 0) { has = true; m = std::max(m, (size_t)op.target); } return m;
 }
 // "-" = nullptr
 static bool p_probe(const std::string &s, bool &has, Script &sc) {
@@ -84,13 +116,11 @@ static bool p_table(const std::string &s, std::vector<std::pair<int,int>> &tbl, 
 // ---- machines ----
 struct Mach {
     StateMachine sm;
-    std::vector<int> order;            // state ids in definition order (successful newState only)
-    std::map<int, size_t> sub;         // state id -> machine index
+    size_t idx = 0;
+    std::map<int, size_t> sub;         // state id -> machine index (successful setSubStateMachine only)
     std::map<int, size_t> nroutes;     // state id -> number of routes added so far
-    std::string path = "?";
 };
 static std::vector<std::unique_ptr<Mach>> g_m;
-static std::set<size_t> g_consumed;
 static long g_cur = -1;
 static long g_root = -1;
 
@@ -100,112 +130,118 @@ static std::string view(StateMachine &sm) {
       << (sm.isRunning() ? 1 : 0) << "," << (sm.isTerminated() ? 1 : 0);
     return o.str();
 }
-static void T(Mach *m, const std::string &s) { std::cout << "P T " << m->path << " " << s << "\n"; }
+static void T(Mach *m, const std::string &s) { std::cout << "P T " << m->idx << " " << s << "\n"; }
+static std::string S(int v) { return std::to_string(v); }
 
 static void run_script(Mach *m, const Script &sc) {
     for (auto &op : sc) {
-        if (op.kind == 'o') { T(m, "obs " + view(m->sm)); continue; }
-        std::string before = view(m->sm), name; bool res = false;
+        Mach *t = op.target < 0 ? m : g_m[(size_t)op.target].get();
+        std::string tg = op.target < 0 ? "" : "@" + std::to_string(op.target);
+        if (op.kind == 'o') { T(m, "obs" + tg + " " + view(t->sm)); continue; }
+        std::string before = view(t->sm), name; bool res = false;
         switch (op.kind) {
-            case 's': name = "start"; res = m->sm.start(); break;
-            case 'x': name = "stop"; m->sm.stop(); break;
-            case 'r': name = "restart"; res = m->sm.restart(); break;
-            default:  name = "run:" + std::to_string(op.ev); res = m->sm.run(Event(op.ev)); break;
+            case 's': name = "start"; res = t->sm.start(); break;
+            case 'x': name = "stop"; t->sm.stop(); break;
+            case 'r': name = "restart"; res = t->sm.restart(); break;
+            default:  { Event e = mk_event(op.ev); name = "run:" + ES(e); res = t->sm.run(e); break; }
         }
-        T(m, "call " + name + " " + (res ? "1" : "0") + " " + before + " " + view(m->sm));
+        T(m, "call" + tg + " " + name + " " + (res ? "1" : "0") + " " + before + " " + view(t->sm));
     }
 }
-static std::string S(int v) { return std::to_string(v); }
 
-static void assign_paths(size_t k, const std::string &path) {
-    Mach *m = g_m[k].get();
-    m->path = path.empty() ? "/" : path;
-    for (int sid : m->order) { auto it = m->sub.find(sid); if (it != m->sub.end()) assign_paths(it->second, path + "/" + S(sid)); }
+// machine `to` reachable from `from` through sub-machine attachments (or equal)
+static bool reaches(size_t from, size_t to) {
+    if (from == to) return true;
+    for (auto &p : g_m[from]->sub) if (reaches(p.second, to)) return true;
+    return false;
 }
-static size_t depth(size_t k) {
-    size_t d = 0; Mach *m = g_m[k].get();
-    for (auto &p : m->sub) d = std::max(d, 1 + depth(p.second));
-    return d;
+static void print_snap() {
+    std::string s;
+    for (size_t k = 0; k < g_m.size(); ++k) { if (k) s += " "; s += std::to_string(k) + ":" + view(g_m[k]->sm); }
+    std::cout << "P S " << s << "\n";
 }
-static void snap(size_t k, std::string &out) {
-    Mach *m = g_m[k].get();
-    if (!out.empty()) out += " ";
-    out += m->path + ":" + view(m->sm);
-    for (int sid : m->order) { auto it = m->sub.find(sid); if (it != m->sub.end()) snap(it->second, out); }
-}
-static void print_snap() { std::string s; snap((size_t)g_root, s); std::cout << "P S " << s << "\n"; }
+static void reset_all() { g_m.clear(); g_cur = -1; g_root = -1; g_tags.clear(); g_tagptr.clear(); g_max_target = 0; g_has_target = false; }
+static void note(const Script &sc) { bool h = false; size_t m = script_max(sc, h); if (h) { g_has_target = true; g_max_target = std::max(g_max_target, m); } }
+static bool targets_ok(const Script &sc) { bool h = false; size_t m = script_max(sc, h); return !h || m < g_m.size(); }
 
-static void reset_all() { g_m.clear(); g_consumed.clear(); g_cur = -1; g_root = -1; }
-
-static bool def_line(const std::vector<std::string> &w) {
-    Mach *m = g_m[(size_t)g_cur].get();
-    const std::string &op = w[0];
-    if (op == "st" && w.size() == 4) {
+// one definition call on machine m; `late` = after `go` (targets are checked at once, the answer is "P def …")
+static bool def_line(Mach *m, const std::vector<std::string> &w, size_t o, bool late) {
+    const std::string &op = w[o];
+    size_t n = w.size() - o;
+    const char *pre = late ? "P def " : "P ";
+    if (op == "st" && n == 4) {
         int sid; bool he, hx; Script se, sx;
-        if (!p_int(w[1], sid) || !p_probe(w[2], he, se) || !p_probe(w[3], hx, sx) || sid < 0) return false;
+        if (!p_int(w[o+1], sid) || !p_probe(w[o+2], he, se) || !p_probe(w[o+3], hx, sx) || sid < 0) return false;
+        if (late && (!targets_ok(se) || !targets_ok(sx))) return false;
+        note(se); note(sx);
         StateMachine::ActionFunc en, ex;
-        if (he) en = [m, sid, se](Event e) { T(m, "enter " + S(sid) + " " + S(e.id)); run_script(m, se); };
-        if (hx) ex = [m, sid, sx](Event e) { T(m, "exit " + S(sid) + " " + S(e.id)); run_script(m, sx); };
+        if (he) en = [m, sid, se](Event e) { T(m, "enter " + S(sid) + " " + ES(e)); run_script(m, se); };
+        if (hx) ex = [m, sid, sx](Event e) { T(m, "exit " + S(sid) + " " + ES(e)); run_script(m, sx); };
         bool ok = m->sm.newState(sid, en, ex);
-        if (ok) m->order.push_back(sid);
-        std::cout << "P st " << (ok ? 1 : 0) << "\n";
+        std::cout << pre << "st " << (ok ? 1 : 0) << "\n";
         return true;
     }
-    if (op == "rt" && w.size() == 6) {
+    if (op == "rt" && n == 6) {
         int src, ev, dst; bool hg = false, ha; std::vector<int> gevs; Script gs, as;
-        if (!p_int(w[1], src) || !p_int(w[2], ev) || !p_int(w[3], dst) || !p_guard(w[4], hg, gevs, gs) || !p_probe(w[5], ha, as)) return false;
+        if (!p_int(w[o+1], src) || !p_int(w[o+2], ev) || !p_int(w[o+3], dst) || !p_guard(w[o+4], hg, gevs, gs) || !p_probe(w[o+5], ha, as)) return false;
+        if (late && (!targets_ok(gs) || !targets_ok(as))) return false;
+        note(gs); note(as);
         size_t idx = m->nroutes[src];
         StateMachine::GuardFunc g; StateMachine::ActionFunc a;
         if (hg) g = [m, src, idx, gevs, gs](Event e) {
             bool r = false; for (int x : gevs) if (x == e.id) r = true;
-            T(m, "guard " + S(src) + " " + std::to_string(idx) + " " + S(e.id) + " " + (r ? "1" : "0"));
+            T(m, "guard " + S(src) + " " + std::to_string(idx) + " " + ES(e) + " " + (r ? "1" : "0"));
             run_script(m, gs);
             return r;
         };
-        if (ha) a = [m, src, idx, as](Event e) { T(m, "act " + S(src) + " " + std::to_string(idx) + " " + S(e.id)); run_script(m, as); };
+        if (ha) a = [m, src, idx, as](Event e) { T(m, "act " + S(src) + " " + std::to_string(idx) + " " + ES(e)); run_script(m, as); };
         bool ok = m->sm.addRoute(src, ev, dst, g, a);
         if (ok) m->nroutes[src] = idx + 1;
-        std::cout << "P rt " << (ok ? 1 : 0) << "\n";
+        std::cout << pre << "rt " << (ok ? 1 : 0) << "\n";
         return true;
     }
-    if (op == "ev" && w.size() == 5) {
+    if (op == "ev" && n == 5) {
         int sid, ev, dflt = -1; std::vector<std::pair<int,int>> tbl; Script sc;
-        if (!p_int(w[1], sid) || !p_int(w[2], ev) || !p_table(w[3], tbl, dflt) || !p_script(w[4], sc)) return false;
+        if (!p_int(w[o+1], sid) || !p_int(w[o+2], ev) || !p_table(w[o+3], tbl, dflt) || !p_script(w[o+4], sc)) return false;
+        if (late && !targets_ok(sc)) return false;
+        note(sc);
         std::string key = ev == 0 ? "*" : S(ev);
         StateMachine::EventFunc f = [m, sid, key, tbl, dflt, sc](Event e) {
             int r = dflt; for (auto &p : tbl) if (p.first == e.id) { r = p.second; break; }
-            T(m, "hdl " + S(sid) + " " + key + " " + S(e.id) + " " + S(r));
+            T(m, "hdl " + S(sid) + " " + key + " " + ES(e) + " " + S(r));
             run_script(m, sc);
             return r;
         };
         bool ok = m->sm.addEvent(sid, ev, f);
-        std::cout << "P ev " << (ok ? 1 : 0) << "\n";
+        std::cout << pre << "ev " << (ok ? 1 : 0) << "\n";
         return true;
     }
-    if (op == "init" && w.size() == 2) {
-        int sid; if (!p_int(w[1], sid)) return false;
+    if (op == "init" && n == 2) {
+        int sid; if (!p_int(w[o+1], sid)) return false;
         m->sm.setInitState(sid);
-        std::cout << "P init\n";
+        std::cout << pre << "init\n";
         return true;
     }
-    if (op == "cb" && w.size() == 2) {
-        Script sc; if (!p_script(w[1], sc)) return false;
+    if (op == "cb" && n == 2) {
+        Script sc; if (!p_script(w[o+1], sc)) return false;
+        if (late && !targets_ok(sc)) return false;
+        note(sc);
         m->sm.setStateChangedCallback([m, sc](int from, int to, Event e) {
-            T(m, "chg " + S(from) + " " + S(to) + " " + S(e.id)); run_script(m, sc);
+            T(m, "chg " + S(from) + " " + S(to) + " " + ES(e)); run_script(m, sc);
         });
-        std::cout << "P cb\n";
+        std::cout << pre << "cb\n";
         return true;
     }
-    if (op == "sub" && w.size() == 3) {
+    if (op == "sub" && n == 3) {
         int sid; size_t j;
-        if (!p_int(w[1], sid) || !p_nat(w[2], j)) return false;
-        if (j >= g_m.size() || (long)j == g_cur || g_consumed.count(j)) return false;
+        if (!p_int(w[o+1], sid) || !p_nat(w[o+2], j)) return false;
+        if (j >= g_m.size() || (long)j == g_cur || reaches(j, m->idx)) return false;   // no cycles
         bool ok = m->sm.setSubStateMachine(sid, &g_m[j]->sm);
-        if (ok) { m->sub[sid] = j; g_consumed.insert(j); }
-        std::cout << "P sub " << (ok ? 1 : 0) << "\n";
+        if (ok) m->sub[sid] = j;
+        std::cout << pre << "sub " << (ok ? 1 : 0) << "\n";
         return true;
     }
-    if (op == "end" && w.size() == 1) {
+    if (!late && op == "end" && n == 1) {
         std::cout << "P end " << g_cur << "\n";
         g_cur = -1;
         return true;
@@ -213,13 +249,18 @@ static bool def_line(const std::vector<std::string> &w) {
     return false;
 }
 
-static bool call_line(const std::vector<std::string> &w) {
-    StateMachine &sm = g_m[(size_t)g_root]->sm;
+static bool call_line(std::vector<std::string> w) {
+    size_t k = (size_t)g_root;
+    if (w.size() >= 2 && w.back().size() >= 2 && w.back()[0] == '@') {
+        if (!p_nat(w.back().substr(1), k) || k >= g_m.size()) return false;
+        w.pop_back();
+    }
+    StateMachine &sm = g_m[k]->sm;
     std::string res;
     if (w.size() == 1 && w[0] == "start") res = sm.start() ? "1" : "0";
     else if (w.size() == 1 && w[0] == "stop") { sm.stop(); res = "-"; }
     else if (w.size() == 1 && w[0] == "restart") res = sm.restart() ? "1" : "0";
-    else if (w.size() == 2 && w[0] == "run") { int e; if (!p_int(w[1], e)) return false; res = sm.run(Event(e)) ? "1" : "0"; }
+    else if (w.size() == 2 && w[0] == "run") { Ev e; if (!p_event(w[1], e)) return false; res = sm.run(mk_event(e)) ? "1" : "0"; }
     else return false;
     std::cout << "P R " << res << "\n";
     print_snap();
@@ -233,18 +274,23 @@ int main() {
         if (w.empty()) continue;
         if (w[0] == "case") { reset_all(); std::cout << line << "\n"; continue; }
         bool ok = false;
-        if (g_root >= 0) ok = call_line(w);
-        else if (g_cur >= 0) ok = def_line(w);
+        if (g_root >= 0) {
+            if (w[0] == "def" && w.size() >= 3) {
+                size_t k;
+                if (p_nat(w[1], k) && k < g_m.size()) { ok = def_line(g_m[k].get(), w, 2, true); if (ok) print_snap(); }
+            } else ok = call_line(w);
+        }
+        else if (g_cur >= 0) ok = def_line(g_m[(size_t)g_cur].get(), w, 0, false);
         else if (w.size() == 1 && w[0] == "mach") {
             g_m.emplace_back(new Mach());
             g_cur = (long)g_m.size() - 1;
+            g_m.back()->idx = (size_t)g_cur;
             std::cout << "P mach " << g_cur << "\n";
             ok = true;
         } else if (w.size() == 2 && w[0] == "go") {
             size_t k;
-            if (p_nat(w[1], k) && k < g_m.size() && !g_consumed.count(k) && depth(k) <= kMaxDepth) {
+            if (p_nat(w[1], k) && k < g_m.size() && (!g_has_target || g_max_target < g_m.size())) {
                 g_root = (long)k;
-                assign_paths(k, "");
                 std::cout << "P go\n";
                 print_snap();
                 ok = true;
